@@ -96,6 +96,7 @@ Step1(sl) ==
   \/ \E o \in StrLeafOps \cap Ops : \E d \in FirstFree(sl) : \E s \in SH : Take(Step(o, d, E, s, E, E, 0, E))
   \/ On("Sentinel") /\ \E d \in FirstFree(sl) : \E p \in SentinelPool :
         Take(Step("Sentinel", d, E, <<p[2]>>, <<<<p[1]>>>>, E, 0, E))
+  \/ On("GrpcStatus") /\ \E d \in FirstFree(sl) : \E s \in SH : Take(Step("GrpcStatus", d, E, s, E, E, 0, E))
   \/ On("CtxDeadline") /\ \E d \in FirstFree(sl) : Take(Step("CtxDeadline", d, E, E, E, E, 0, E))
   \/ On("Errno") /\ \E d \in FirstFree(sl) : \E n \in ErrnoPool : Take(Step("Errno", d, E, <<n[2]>>, <<<<n[1]>>>>, E, 0, E))
   \/ On("Unimplemented") /\ \E d \in FirstFree(sl) : \E s \in SH : \E lk \in LinkPool :
@@ -158,6 +159,8 @@ Step1(sl) ==
 
 \* transfer
 StepHop(sl) ==
+  \/ On("Grpc") /\ \E i \in NonNil(sl) \cup (IF NilOps THEN FirstFree(sl) ELSE {}) :
+        Take(Step("Grpc", i, <<i>>, E, E, E, 0, E))
   \/ On("Hop") /\ \E i \in NonNil(sl) : Take(Step("Hop", i, <<i>>, E, E, E, 0, <<"*">>))
   \* hop to a process that knows only a subset of the families occurring in the value
   \* (in a directed search with two closing hops the last one goes to a knowing process)
